@@ -187,7 +187,10 @@ func genCase(t *rapid.T) (*hdrCase, []string) {
 	}
 	nq := rapid.IntRange(1, 8).Draw(t, "nq")
 	for i := 0; i < nq; i++ {
-		switch rapid.IntRange(0, 3).Draw(t, "qKind") {
+		switch rapid.IntRange(0, 4).Draw(t, "qKind") {
+		case 4: // halfway between two ranks (k + 1/2)
+			k := rapid.Int64Range(0, total-1).Draw(t, "tieRank")
+			c.Qs = append(c.Qs, float64(2*k+1)*50/float64(total))
 		case 0:
 			c.Qs = append(c.Qs, rapid.SampledFrom([]float64{50, 90, 99, 99.9, 99.99, 100}).Draw(t, "q"))
 		case 1: // an exact rank
@@ -246,12 +249,21 @@ func check(t vkit.TB, c *hdrCase) (classes []string, nontrivial bool) {
 		fail("total", "TotalCount()=%d after recording %d occurrences", h.TotalCount(), total)
 	}
 	key = "quantile-panic"
-	tested := 0
+	tested, ties := 0, 0
 	for _, q := range c.Qs {
 		x := q / 100 * float64(total)
 		r1, r2 := int64(math.Floor(x+0.5-1e-9)), int64(math.Floor(x+0.5+1e-9))
+		if x == math.Floor(x)+0.5 {
+			// exactly halfway between two ranks: HdrHistogram counts
+			// (q/100)*total + 0.5 truncated, i.e. the tie goes up -
+			// the median of one value is that value
+			r1 = int64(math.Floor(x)) + 1
+			r2 = r1
+			ties++
+		}
 		if r1 != r2 || r1 < 1 {
-			// a rounding tie, or a rank below one: the statement is silent
+			// a near-tie that floating point may round either way, or
+			// a rank below one: the statement is silent
 			h.ValueAtQuantile(q)
 			continue
 		}
@@ -356,6 +368,9 @@ func check(t vkit.TB, c *hdrCase) (classes []string, nontrivial bool) {
 	}
 	if widthAt(c, hi) > int64(1)<<unitMag(c.Min) {
 		classes = append(classes, "spans-several-buckets")
+	}
+	if ties > 0 {
+		classes = append(classes, "half-rank-quantile")
 	}
 	return classes, tested >= 1 && distinct >= 2
 }
